@@ -13,15 +13,19 @@ func init() {
 }
 
 func runC04(c *Ctx) error {
-	n := c.Pick(150, 3000)
+	n := c.Pick(240, 3000)
 	c.Rule = "random, template and near-LR(1)-boundary grammars (LR(1)-but-not-LALR(1), reduce/reduce on one look-ahead, conflicts behind nullable prefixes, self-deriving start symbols, injected ambiguity, error alternatives), each run through the real gocc with and without -a; exit status and the 'LR-1 conflicts' line are judged against the M-LR1 classification; one evaluation = one gocc run; non-trivial = grammar in class conflicting or accept/reduce, or conflict-free with at least 6 LR(1) states; distinct by grammar text"
 	c.Assumptions = []string{"M-LR1 is the canonical LR(1) automaton of the grammar with 'error' as an ordinary terminal", "the conflict count N is recorded, not judged"}
 	var jobs []*SynJob
+	boundary := 0
 	for tries := 0; len(jobs) < n && tries < n*20; tries++ {
 		o := gram.SynGenOpts{}
 		switch c.Rng.Intn(10) {
 		case 0, 1, 2, 3:
-			o.Family = gram.BoundaryFamilies[c.Rng.Intn(len(gram.BoundaryFamilies))]
+			// every boundary family in turn: none of them is left to chance in a short run
+			c.Rng.Intn(len(gram.BoundaryFamilies))
+			o.Family = gram.BoundaryFamilies[boundary%len(gram.BoundaryFamilies)]
+			boundary++
 		case 4, 5:
 			o.Ambiguous = true
 		case 6:
